@@ -47,7 +47,7 @@ type accPkg struct {
 }
 
 var accPkgs []accPkg
-var accMissing []string        // tracked types that no longer exist
+var accMissing []string         // tracked types that no longer exist
 var accAuto = map[string]bool{} // automatically tracked variables with at least one access
 
 func registerAcc(p accPkg) { accPkgs = append(accPkgs, p) }
@@ -68,9 +68,9 @@ type accCtx struct {
 	file    string
 	fn      string
 	out     *[]access
-	entry   map[string][]string            // function name -> must-hold set at entry
-	calls   map[string][][]string          // function name -> held sets at its call sites
-	unique  map[string]string              // base names that are unique in the package -> full function name
+	entry   map[string][]string   // function name -> must-hold set at entry
+	calls   map[string][][]string // function name -> held sets at its call sites
+	unique  map[string]string     // base names that are unique in the package -> full function name
 	cbRe    map[string]*regexp.Regexp
 	auto    map[string]string // field name -> automatically tracked variable
 	fresh   map[string]bool   // locals of the current function that hold an object allocated in it (x := new(T), &T{}, T{}, var x T)
@@ -80,6 +80,14 @@ type accCtx struct {
 	fileRe  []*regexp.Regexp
 	aliasRe [][2]*regexp.Regexp
 	ctorRe  *regexp.Regexp
+	valRecv map[string][]valRecvInfo // method base name -> value-receiver methods of tracked struct types
+}
+
+// valRecvInfo: a method of a tracked struct type declared with a value receiver. Calling it copies the whole
+// struct: a plain read of every field at the call site.
+type valRecvInfo struct {
+	typ, recv, file string
+	fields          []string
 }
 
 func (c *accCtx) canonLock(e ast.Expr) string {
@@ -278,6 +286,21 @@ func (c *accCtx) exprAcc(e ast.Node, held map[string]bool, write bool, atomicCtx
 			}
 			if full, ok := c.unique[name]; ok {
 				c.calls[full] = append(c.calls[full], setList(held))
+			}
+			// x.m() with m declared on a tracked struct type with a VALUE receiver: the call copies the struct,
+			// i.e. reads every field plainly at this site (whatever the method body does with the copy)
+			if _, isSel := x.Fun.(*ast.SelectorExpr); isSel {
+				for _, info := range c.valRecv[name] {
+					for _, f := range info.fields {
+						saved := c.file
+						c.file = info.file
+						v := c.varOf(&ast.SelectorExpr{X: ast.NewIdent(info.recv), Sel: ast.NewIdent(f)})
+						c.file = saved
+						if v != "" {
+							c.record(v, held, false, false)
+						}
+					}
+				}
 			}
 			for pat, fns := range c.cfg.callbacks {
 				if c.cbRe[pat].MatchString(callee) {
@@ -496,6 +519,31 @@ func analysePkg(cfg *accPkg) []access {
 				fmt.Fprintf(os.Stderr, "extract: tracked type %s not found in %s\n", t, cfg.dir)
 				accMissing = append(accMissing, cfg.dir+"."+t)
 			}
+		}
+		c.valRecv = map[string][]valRecvInfo{}
+		for name, fd := range p.funcs {
+			if fd.Recv == nil || len(fd.Recv.List) != 1 {
+				continue
+			}
+			id, ok := fd.Recv.List[0].Type.(*ast.Ident) // value receiver: the type is not a pointer
+			if !ok || !tracked[id.Name] {
+				continue
+			}
+			st, ok := p.types[id.Name].Type.(*ast.StructType)
+			if !ok {
+				continue
+			}
+			info := valRecvInfo{typ: id.Name, recv: "recv", file: filepath.Base(p.fset.Position(fd.Pos()).Filename)}
+			if len(fd.Recv.List[0].Names) == 1 && fd.Recv.List[0].Names[0].Name != "_" {
+				info.recv = fd.Recv.List[0].Names[0].Name
+			}
+			for _, f := range st.Fields.List {
+				for _, nm := range f.Names {
+					info.fields = append(info.fields, nm.Name)
+				}
+			}
+			b := name[strings.LastIndex(name, ".")+1:]
+			c.valRecv[b] = append(c.valRecv[b], info)
 		}
 		for f, ts := range owners {
 			any := false
